@@ -252,16 +252,24 @@ theorem refresh_trigger {s : St} {c : Cfg} (call : Call) (err : ErrKind) {r : Re
     (hd : c.detection = true) (hr : isResponse s err call.dl = false)
     (hg : getRef s call.slot = some r) (hst : ¬ call.started < r.lastResp) :
     detectUnresponsive s c call err =
-      if r.deCalls + 1 ≥ c.uc ∧ r.lastResp < s.now - windowNs c r.refreshCnt
-      then refresh (modRef s call.slot fun r => { r with deCalls := r.deCalls + 1 }) call.slot
-      else (modRef s call.slot fun r => { r with deCalls := r.deCalls + 1 }, []) := by
+      if satInc r.deCalls ≥ c.uc ∧ r.lastResp < s.now - windowNs c r.refreshCnt
+      then refresh (modRef s call.slot fun r => { r with deCalls := satInc r.deCalls }) call.slot
+      else (modRef s call.slot fun r => { r with deCalls := satInc r.deCalls }, []) := by
   simp only [detectUnresponsive, hd, hr, hg, hst]
   simp only [Bool.not_true, Bool.false_eq_true, ↓reduceIte, modRef]
-  by_cases h1 : r.deCalls + 1 ≥ c.uc
+  by_cases h1 : satInc r.deCalls ≥ c.uc
   · by_cases h2 : r.lastResp < s.now - windowNs c r.refreshCnt
     · simp [h1, h2]
     · simp [h1, h2]
   · simp [h1]
+
+/-- the counter counts, as long as it fits: below the largest uint32 value `satInc` is `+ 1`, and at that
+    value the trigger condition `≥ unresponsive_calls` (a uint32) holds anyway (F38: the counter used to
+    wrap to 0 there, and the refresh that was due did not happen) -/
+theorem satInc_counts (n : Nat) : (n < 4294967295 → satInc n = n + 1) ∧ (n ≤ satInc n) ∧
+    (∀ uc, uc ≤ 4294967295 → 4294967295 ≤ n → uc ≤ satInc n) := by
+  unfold satInc
+  refine ⟨fun h => by simp [h], by split <;> omega, fun uc h1 h2 => by split <;> omega⟩
 
 /-- the window doubles with every refresh since the last response; it never wraps around: beyond the
     range of time.Duration it saturates -/
